@@ -61,7 +61,7 @@ def validate(res, prop, judge, flags_a, flags_b, mode_a="plain", mode_b="wild", 
         mode_a2 = mode_a.replace("plain", "lists")
         a2 = run_region(flags_a, judge, n_a // 2, res.seed + 1000003, mode_a2)
         a2["bads"] = [(k, "L" + c) for k, c in a2["bads"]]
-        for k in ("cases", "nontrivial", "outside_model", "token_lists_compared", "trivia_calls_replayed", "comments_in_replayed_calls", "bad"):
+        for k in ("cases", "nontrivial", "outside_model", "token_lists_compared", "trivia_calls_replayed", "comments_in_replayed_calls", "calls_judged", "calls_exempt_for_comments", "definitions_judged", "bad"):
             a["tot"][k] = a["tot"].get(k, 0) + a2["tot"].get(k, 0)
         for k, v in a2["stats"].items(): a["stats"][k] = a["stats"].get(k, 0) + v
         a["bads"] += a2["bads"]; a["ok"] = a["ok"] and a2["ok"]; a["errs"] += a2["errs"]; a["samples"] += a2["samples"][:2]
